@@ -67,6 +67,28 @@ CompileFaults ==
    Fault("matches on a number", <<TBr("("), TNum("1"), TOp("matches"), TId("S"), TBr(")")>>, 3, NNil),
    Fault("not on a number", <<TBr("("), TOp("not"), TNum("1"), TBr(")")>>, 2, NNil),
    Fault("minus on a string", <<TBr("("), TOp("-"), TId("S"), TBr(")")>>, 2, NNil)}
+(* C03: further single violations of a documented typing rule (the position   *)
+(* they are reported at is not part of any claim: anchor 1)                    *)
+MoreFaults ==
+  {Fault("too many arguments", <<TId("Id"), TBr("("), TNum("1"), TOp(","), TNum("2"), TBr(")")>>, 1, NNil),
+   Fault("too few arguments", <<TId("Add"), TBr("("), TNum("1"), TBr(")")>>, 1, NNil),
+   Fault("string argument for an int parameter", <<TId("Id"), TBr("("), TId("S"), TBr(")")>>, 1, NNil),
+   Fault("float member for an int parameter", <<TId("Id"), TBr("("), TId("F"), TBr(")")>>, 1, NNil),
+   Fault("string concatenation for an int parameter", <<TId("Id"), TBr("("), TId("S"), TOp("+"), TId("S"), TBr(")")>>, 1, NNil),
+   Fault("float arithmetic for an int parameter", <<TId("Id"), TBr("("), TId("F"), TOp("-"), TId("G"), TBr(")")>>, 1, NNil),
+   Fault("integer arithmetic for a string parameter", <<TId("Cat"), TBr("("), TNum("1"), TOp("+"), TNum("2"), TOp(","), TId("S"), TBr(")")>>, 1, NNil),
+   Fault("non-boolean condition", <<TBr("("), TNum("1"), TOp("?"), TNum("2"), TOp(":"), TNum("3"), TBr(")")>>, 1, NNil),
+   Fault("non-boolean predicate", <<TId("all"), TBr("("), TId("Xs"), TOp(","), TBr("{"), TOp("#"), TBr("}"), TBr(")")>>, 1, NNil),
+   Fault("non-collection builtin argument", <<TId("filter"), TBr("("), TId("I"), TOp(","), TBr("{"), TId("B"), TBr("}"), TBr(")")>>, 1, NNil),
+   Fault("len of a number", <<TId("len"), TBr("("), TId("I"), TBr(")")>>, 1, NNil),
+   Fault("string index into a slice", <<TId("Xs"), TBr("["), TId("S"), TBr("]")>>, 1, NNil),
+   Fault("slice of a number", <<TId("I"), TBr("["), TNum("1"), TOp(":"), TBr("]")>>, 1, NNil),
+   Fault("range over strings", <<TBr("("), TId("S"), TOp(".."), TNum("2"), TBr(")")>>, 1, NNil),
+   Fault("comparison of a string with a number", <<TBr("("), TId("S"), TOp("<"), TNum("1"), TBr(")")>>, 1, NNil),
+   Fault("equality of a string and a number", <<TBr("("), TId("S"), TOp("=="), TNum("1"), TBr(")")>>, 1, NNil),
+   Fault("membership in a number", <<TBr("("), TNum("1"), TOp("in"), TId("I"), TBr(")")>>, 1, NNil),
+   Fault("modulo of a float", <<TBr("("), TId("F"), TOp("%"), TNum("2"), TBr(")")>>, 1, NNil)}
+
 RunFaults ==
   {Fault("modulo by zero", <<TBr("("), TId("J"), TOp("%"), TId("U8"), TBr(")")>>, 3, NBin("%", NId("J"), NId("U8"))),
    Fault("panicking function", <<TId("Boom"), TBr("("), TNum("1"), TBr(")")>>, 1, NCall("Boom", <<NInt(1)>>)),
@@ -115,7 +137,13 @@ RunCase(t, p, f) ==
 EmitErr ==
   Complete =>
     \A p \in LeafPaths(Tree) :
-      IF ErrMode = "compile"
+      IF ErrMode = "reject"
+      THEN \A f \in CompileFaults \cup MoreFaults :
+             LET sp == Spliced(Tree, p, f)
+             IN (f.name = "unknown identifier" /\ sp.anchor < Len(sp.toks) /\ sp.toks[sp.anchor + 1] = TOp("?."))
+                \/ PrintT(ToJson([kind |-> "reject", fault |-> f.name, n |-> n,
+                                   texts |-> <<TextMin(sp.toks), TextWild(sp.toks)>>]))
+      ELSE IF ErrMode = "compile"
       THEN \A f \in CompileFaults :
              \* (an unknown first identifier of a nil-safe chain, `Zq?.x`, is accepted by design)
              LET sp == Spliced(Tree, p, f)
